@@ -521,9 +521,14 @@ ShieldRespected ==
 WaiterAttached ==
     \A c \in Callers : (callers[c].pc = "wait" /\ callers[c].wake = "none") => Alive(callers[c].waitOn)
 
+\* "keeps trying" as a temporal property: an open pairing that is not connected and was not ended by an
+\* authentication failure always gets another attempt (or gets connected / closed / ended)
+NeedsWork == userClosed = "open" /\ ~shutdownF /\ attempts > 0 /\ ~Connected(St) /\ ~authEnded
+KeepsTrying == [](NeedsWork => <>(~NeedsWork \/ \E t \in TaskIds : Alive(t) /\ tasks[t].pc = "tcp"))
 \* liveness (checked with fairness on the internal steps, untimed)
 Fairness == /\ \A t \in TaskIds : WF_vars(TaskRun(t)) /\ WF_vars(TaskTimer(t))
             /\ \A s \in 1..4 : WF_vars(CtrlRead(s)) /\ WF_vars(LostCallback(s))
+            /\ \A t \in TaskIds, h \in AllHosts : WF_vars(TcpRefused(t, h))     \* a pending connect eventually resolves
             /\ \A c \in Callers : WF_vars(CallerResume(c)) /\ WF_vars(CloseResume(c)) /\ WF_vars(CloseYield(c))
 LiveSpec == Spec /\ Fairness
 =============================================================================
